@@ -29,13 +29,17 @@ from ..simdev.uiadmin import (UiAdmin, DropLink, MODE_BOOTLOADER, MODE_SIGNER, M
 # two bytes in UTF-8.  uni-letters / uni-digits encode to exactly 8 BYTES (7 characters),
 # uni-8chars is 8 CHARACTERS (9 bytes).  The policy speaks about what the device receives:
 # 8 ASCII alphanumerics with at least one ASCII letter.
-PIN_KINDS = ["absent", "valid", "short7", "digits", "nonalnum", "long9",
+# nonalnum: a non-alphanumeric byte AFTER the first letter; junk-first: non-alphanumeric bytes
+# BEFORE the first (and only) letter -- a validator that stops looking at the first letter, or
+# starts there, must not get away with it
+PIN_KINDS = ["absent", "valid", "short7", "digits", "nonalnum", "junk-first", "long9",
              "uni-letters", "uni-digits", "uni-8chars"]
+QUICK_DROP = ["uni-letters", "uni-8chars"]        # thorough only (uni-digits stays in quick)
 PIN_VALUES = {"valid": "pa55word", "short7": "123456a", "digits": "12345678",
-              "nonalnum": "1234567!", "long9": "1234567ab",
+              "nonalnum": "a234567!", "junk-first": "12#45-7a", "long9": "1234567ab",
               "uni-letters": "abc123\u00ba", "uni-digits": "123456\u00ba", "uni-8chars": "abc1234\u00b5"}
 NEWPIN_VALUES = {"valid": "a1b2c3a1", "short7": "Abcd123", "digits": "87654321",
-                 "nonalnum": "Abcd123$", "long9": "Abcd12345",
+                 "nonalnum": "Abcd123$", "junk-first": "-------z", "long9": "Abcd12345",
                  "uni-letters": "Abcd12\u00b5", "uni-digits": "876543\u00b5", "uni-8chars": "Abcd123\u00ba"}
 # an otherwise valid PIN with ASCII whitespace around / inside it (9 bytes): not policy-compliant
 WS_KINDS = ["trail-blank", "lead-blank", "trail-nl", "trail-tab", "inner-blank"]
@@ -50,7 +54,7 @@ def ws_variant(valid, kind):
 
 
 GETPASS_MENU = [("valid", "Zz11gpZz"), ("short7", "gp1234Z"), ("digits", "11223344"),
-                ("nonalnum", "gp1234Z*"), ("long9", "gp1234Zz9"),
+                ("nonalnum", "gp1234Z*"), ("junk-first", "1 2 3 4x"), ("long9", "gp1234Zz9"),
                 ("uni-letters", "gp1234\u00ba"), ("uni-digits", "112233\u00ba"),
                 ("uni-8chars", "gp1234Z\u00b5")]
 for _k in WS_KINDS:
@@ -60,9 +64,12 @@ PIN_VALUES.update({"short-nl": "abc\n", "only-nl": "\n"})
 NEWPIN_VALUES.update({"short-nl": "Ab1\n", "only-nl": "\n"})
 GETPASS_WS = [(k, ws_variant("Zz11gpZz", k)) for k in WS_KINDS]
 # "yes" without newline = the last line of an input that ends there; "\r\n" = a DOS line ending
-STDIN_MENU = ["yes\n", "YES\n", "no\n", "n\n", "maybe\n", "\n", "y\n", "yes"]
+# "Ye\u017f" (long s): an unrecognised answer that Unicode case FOLDING / NFKC would turn into "yes";
+# it is the quick tier's representative of the unrecognised answers (thorough: also "maybe", a
+# very long line and a CRLF-terminated yes)
+STDIN_MENU = ["yes\n", "YES\n", "no\n", "n\n", "Ye\u017f\n", "\n", "y\n", "yes"]
 LONG_LINE = "y" * 70000 + "\n"
-STDIN_EXTRA = ["yes\r\n", LONG_LINE]   # thorough: DOS line ending, very long unrecognised line
+STDIN_EXTRA = ["yes\r\n", LONG_LINE, "maybe\n"]
 MODES = ["bootloader", "signer", "ui-heartbeat", "0xff", "undefined", "status-error"]
 NAMES = {"btc": "m/44'/0'/0'/0/0", "rsk": "m/44'/137'/0'/0/0", "mst": "m/44'/137'/1'/0/0",
          "tbtc": "m/44'/1'/0'/0/0", "trsk": "m/44'/1'/1'/0/0", "tmst": "m/44'/1'/2'/0/0"}
@@ -368,8 +375,11 @@ class C18(Check):
         self.stdin_menu = STDIN_MENU + (STDIN_EXTRA if self.thorough else [])
         # getpass answers: quick 2 whitespace kinds, thorough 3 (all five in --pin / --newpin)
         ws = (WS_QUICK + ["trail-nl"]) if self.thorough else WS_QUICK
-        self.getpass_menu = GETPASS_MENU + [e for e in GETPASS_WS if e[0] in ws]
-        self.pin_kinds = PIN_KINDS + (WS_KINDS if self.thorough else WS_QUICK_OPT) + ANYPIN_ONLY
+        drop = [] if self.thorough else QUICK_DROP
+        self.getpass_menu = [e for e in GETPASS_MENU if e[0] not in drop] + \
+            [e for e in GETPASS_WS if e[0] in ws]
+        self.pin_kinds = [k for k in PIN_KINDS if k not in drop] + \
+            (WS_KINDS if self.thorough else WS_QUICK_OPT) + ANYPIN_ONLY
         self.td = None
 
     def bounds(self):
